@@ -300,6 +300,31 @@ func TestC13(t *testing.T) {
 		}
 	}
 	ev.Class("junction-sweeps", int64(len(whites)*9))
+	// ratios EXACTLY equal to 216/24389: white component 24389*k/2^m and colour component 216*k/2^m are both exact
+	// float32 values (24389*k < 2^24), so the ratio is the junction constant itself, on one, two or all three axes
+	for k := 1; k <= 687; k += 1 + k/16 {
+		m := 0
+		for float64(24389*k)/math.Ldexp(1, m) >= 2 {
+			m++
+		}
+		wv := float32(float64(24389*k) / math.Ldexp(1, m))
+		cv := float32(float64(216*k) / math.Ldexp(1, m))
+		for axes := 1; axes < 8; axes++ {
+			w := [3]float32{0.9642, 1, 0.8251}
+			v := [3]float32{0.3, 0.4, 0.2}
+			for ax := 0; ax < 3; ax++ {
+				if axes&(1<<uint(ax)) != 0 {
+					w[ax], v[ax] = wv, cv
+				}
+			}
+			c := Case{Kind: "tolab", V: v, White: w}
+			ev.Eval(1)
+			ev.NT(ev.Hash("exact-junction", c))
+			if kk, ww := check(c); kk != "" {
+				ev.Violation("lab", kk, ww, c)
+			}
+		}
+	}
 	// consecutive calls with DIFFERENT whites at the same (very small or very large) scale: first every unscaled
 	// result, then the scaled calls back to back, so that state kept from one call to the next (a memo of the
 	// last white, say) meets a different white of similar magnitude
